@@ -55,16 +55,18 @@ ANCHORS = [
     "txtorcon.circuit:Circuit.update_path",
 ]
 FLOORS = {
-    "quick": {"evaluations": 400, "oracle_evaluations": 10000, "events_delivered": 10000,
-              "circuits_compared": 20000, "streams_compared": 20000, "attachments_compared": 3000,
-              "snapshot_entries": 1000, "circuit_id_reused": 200, "stream_id_reused": 200,
-              "circuit_died_under_streams": 100, "reattached_to_other_circuit": 50,
-              "hop_not_in_consensus": 500,
-              "reach:txtorcon.stream:Stream.update": 5000, "reach:txtorcon.circuit:Circuit.update": 5000,
-              "reach:txtorcon.torstate:TorState.circuit_destroy": 500},
-    "thorough": {"evaluations": 8000, "oracle_evaluations": 200000, "events_delivered": 200000,
-                 "circuits_compared": 400000, "streams_compared": 400000, "attachments_compared": 60000,
-                 "snapshot_entries": 20000, "circuit_died_under_streams": 2000},
+    "quick": {"evaluations": 500, "oracle_evaluations": 10000, "events_delivered": 10000,
+              "circuits_compared": 20000, "streams_compared": 20000, "attachments_compared": 6000,
+              "snapshot_entries": 1200, "circuit_id_reused": 600, "stream_id_reused": 800,
+              "circuit_died_under_streams": 300, "detached_after_circuit_died": 100,
+              "reattached_to_other_circuit": 100, "hop_not_in_consensus": 1000, "cannibalized": 50,
+              "reach:txtorcon.stream:Stream.update": 6000, "reach:txtorcon.circuit:Circuit.update": 6000,
+              "reach:txtorcon.torstate:TorState.circuit_destroy": 1000,
+              "reach:txtorcon.torstate:TorState._stream_status": 500},
+    "thorough": {"evaluations": 10000, "oracle_evaluations": 250000, "events_delivered": 250000,
+                 "circuits_compared": 500000, "streams_compared": 500000, "attachments_compared": 150000,
+                 "snapshot_entries": 30000, "circuit_died_under_streams": 8000, "circuit_id_reused": 15000,
+                 "reattached_to_other_circuit": 2500},
 }
 
 SIM_STATS = ["circuit_id_reused", "stream_id_reused", "circuit_died_under_streams",
